@@ -2,7 +2,7 @@
 from corr import kern_family
 from oracles import c15 as oracle
 
-GEN = ["Const"]
+GEN = ["Const", "Tol"]
 LEAN_TARGETS = ["MagpyVerif.Props.C15"]
 PROPS = ["MagpyVerif.Props.C15"]
 
